@@ -146,7 +146,7 @@ def run(pid, tier, seed, a, t0):
     stats_all = {'functions': 0, 'paths': 0, 'gen_s': 0.0, 'solve_s': 0.0}
     functions_under_contract = []
     # ---- Layer A: functional contracts
-    fun_quals = [q for q, c in contract.REGISTRY.items() if c.setup is not None and not c.generic and pid in c.tags and P.get('functional', True)]
+    fun_quals = [q for q, c in contract.REGISTRY.items() if c.setup is not None and not c.generic and P.get('functional', True)]
     res, oor, stats = driver.verify_functions(src, fun_quals, tags=[pid], interface_factory=ConstructInterface, timeout=timeout, tier=tier)
     all_results += res
     oor_all += oor
